@@ -152,6 +152,7 @@ func (v *Verifier) verifyFunc(key string, splitName, splitCase string, splitCond
 	c.pre.alloc = "alloc0"
 	c.decls.declFun("allocated0", []Sort{SInt}, SBool)
 	c.addFact("(forall ((r Int)) (! (=> (allocated0 r) (<= r alloc0)) :pattern ((allocated0 r))))")
+	c.apiOnly(fd)
 	// parameters
 	bindParam := func(id *ast.Ident) {
 		o, _ := c.info.Defs[id].(*types.Var)
@@ -719,6 +720,55 @@ func (c *FnCtx) syntacticPurity() string {
 		return true
 	})
 	return why
+}
+
+// apiOnly: `api-only PKG name, name, ...` — a frame condition on what the body (closures included) may use of a
+// package: every function or method of PKG that is referenced, called or taken as a value, is in the list. Decided on
+// the typed syntax tree; one obligation per directive, failing with the offending names.
+func (c *FnCtx) apiOnly(fd *ast.FuncDecl) {
+	for fl := range c.con.Flags {
+		if !strings.HasPrefix(fl, "api-only:") {
+			continue
+		}
+		rest := strings.TrimSpace(strings.TrimPrefix(fl, "api-only:"))
+		sp := strings.SplitN(rest, " ", 2)
+		if len(sp) != 2 {
+			c.specErr("api-only PKG name, name, ...")
+			continue
+		}
+		pkg := sp[0]
+		allowed := map[string]bool{}
+		for _, n := range strings.Split(sp[1], ",") {
+			allowed[strings.TrimSpace(n)] = true
+		}
+		bad := map[string]bool{}
+		ast.Inspect(fd.Body, func(n ast.Node) bool {
+			id, ok := n.(*ast.Ident)
+			if !ok {
+				return true
+			}
+			fn, ok := c.info.Uses[id].(*types.Func)
+			if !ok || fn.Pkg() == nil || fn.Pkg().Name() != pkg {
+				return true
+			}
+			short := strings.TrimPrefix(typesFuncKey(fn), pkg+".")
+			if !allowed[short] {
+				bad[short] = true
+			}
+			return true
+		})
+		var names []string
+		for n := range bad {
+			names = append(names, n)
+		}
+		sort.Strings(names)
+		goal := "true"
+		if len(names) > 0 {
+			goal = "false"
+		}
+		c.addObl(&Obligation{Name: fmt.Sprintf("%s/api-only.%s", c.key, pkg), Kind: "frame", Descr: "only the listed functions of package " + pkg + " are used; not listed: " + strings.Join(names, ", "),
+			Pos: c.pos(fd), Goal: goal, Clause: "api-only " + rest})
+	}
 }
 
 var reSym = regexp.MustCompile(`[A-Za-z_][A-Za-z0-9_.]*![0-9]+`)
